@@ -43,6 +43,8 @@ impl de::Error for Error {
 
 pub struct Ser {
     pub out: Vec<Tok>,
+    /// what the format answers to `is_human_readable()` (types may choose a compact form when false)
+    pub human_readable: bool,
 }
 
 macro_rules! ser_int {
@@ -65,6 +67,9 @@ impl<'a> ser::Serializer for &'a mut Ser {
     type SerializeStruct = Self;
     type SerializeStructVariant = Self;
 
+    fn is_human_readable(&self) -> bool {
+        self.human_readable
+    }
     fn serialize_bool(self, v: bool) -> Result<(), Error> {
         self.out.push(Tok::Bool(v));
         Ok(())
@@ -202,6 +207,7 @@ compound!(ser::SerializeStructVariant, serialize_field, key);
 pub struct De<'t> {
     toks: &'t [Tok],
     pos: usize,
+    human_readable: bool,
 }
 
 impl<'t> De<'t> {
@@ -300,6 +306,9 @@ impl<'de, 'a, 't> VariantAccess<'de> for Enum<'a, 't> {
 
 impl<'de, 'a, 't> de::Deserializer<'de> for &'a mut De<'t> {
     type Error = Error;
+    fn is_human_readable(&self) -> bool {
+        self.human_readable
+    }
     fn deserialize_any<V: Visitor<'de>>(self, _: V) -> Result<V::Value, Error> {
         Err(Error("the token format is not self-describing".into()))
     }
@@ -416,13 +425,21 @@ impl<'de, 'a, 't> de::Deserializer<'de> for &'a mut De<'t> {
 }
 
 pub fn to_tokens<T: Serialize>(v: &T) -> Result<Vec<Tok>, Error> {
-    let mut s = Ser { out: Vec::new() };
+    to_tokens_as(v, true)
+}
+
+pub fn to_tokens_as<T: Serialize>(v: &T, human_readable: bool) -> Result<Vec<Tok>, Error> {
+    let mut s = Ser { out: Vec::new(), human_readable };
     v.serialize(&mut s)?;
     Ok(s.out)
 }
 
 pub fn from_tokens<'de, T: Deserialize<'de>>(toks: &[Tok]) -> Result<T, Error> {
-    let mut d = De { toks, pos: 0 };
+    from_tokens_as(toks, true)
+}
+
+pub fn from_tokens_as<'de, T: Deserialize<'de>>(toks: &[Tok], human_readable: bool) -> Result<T, Error> {
+    let mut d = De { toks, pos: 0, human_readable };
     let v = T::deserialize(&mut d)?;
     if d.pos != toks.len() {
         return Err(Error(format!("{} trailing tokens", toks.len() - d.pos)));
@@ -433,4 +450,10 @@ pub fn from_tokens<'de, T: Deserialize<'de>>(toks: &[Tok]) -> Result<T, Error> {
 pub fn roundtrip<T: Serialize + for<'de> Deserialize<'de>>(v: &T) -> Result<T, String> {
     let toks = to_tokens(v).map_err(|e| format!("serialising to tokens failed: {e}"))?;
     from_tokens(&toks).map_err(|e| format!("deserialising from tokens failed: {e}; tokens: {toks:?}"))
+}
+
+/// The same format answering `is_human_readable() == false` (a binary format like bincode / postcard).
+pub fn roundtrip_binary<T: Serialize + for<'de> Deserialize<'de>>(v: &T) -> Result<T, String> {
+    let toks = to_tokens_as(v, false).map_err(|e| format!("serialising to tokens (binary flavour) failed: {e}"))?;
+    from_tokens_as(&toks, false).map_err(|e| format!("deserialising from tokens (binary flavour) failed: {e}; tokens: {toks:?}"))
 }
